@@ -6,6 +6,7 @@ import SMV.Props.RefineVeto
 import SMV.Props.RefineData
 import SMV.Props.C13Complete
 import SMV.Props.RefineReply
+import SMV.Props.EndToEnd
 namespace SMV.Witness
 open SMV
 
@@ -236,7 +237,7 @@ example : specReplies exM A
 
 /-- the concrete definition satisfies the parser's rules and its machine the validator's: the hypotheses of
     `macro_accepts` are satisfiable, and it yields what `ex_parses` / `ex_validates` computed -/
-example : ParserRules exDef := by
+theorem ex_parserRules : ParserRules exDef := by
   refine ⟨by decide, by decide, by decide, by decide, ?_, ?_⟩
   · intro items hi
     simp only [exDef, List.mem_cons, List.mem_nil_iff, or_false, reduceCtorEq, false_or, TopItem.states.injEq] at hi
@@ -259,6 +260,18 @@ example : ParserRules exDef := by
       exact ⟨by decide, by decide, by decide⟩
 
 example : C13.Valid exM := (C13.validate_iff exM).mp ex_validates
+
+/-- the hypotheses of `end_to_end` hold of the concrete definition, and the machine it yields is `exM` -/
+example : ∃ m, parseMachine exDef = .ok m ∧ m = exM := by
+  obtain ⟨m, hp, _⟩ := EndToEnd.end_to_end exDef ex_parserRules (by
+    intro m hm
+    rw [ex_parses] at hm
+    cases hm
+    exact (C13.validate_iff exM).mp ex_validates)
+  refine ⟨m, hp, ?_⟩
+  rw [ex_parses] at hp
+  cases hp
+  rfl
 
 
 end SMV.Witness
